@@ -16,7 +16,7 @@ def main (args : List String) : IO UInt32 := do
   for (n, ci) in env.constants.toList do
     if env.getModuleIdxFor? n == some idx then
       match ci with
-      | .thmInfo _ => if !n.isInternal then names := names.push n
+      | .thmInfo _ => if !n.isInternal && modName.isPrefixOf n then names := names.push n
       | _ => pure ()
   let sorted := names.qsort (fun a b => a.toString < b.toString)
   for n in sorted do
